@@ -647,7 +647,8 @@ def gen_cases(ctx, widened=False):
     for k in range(n_valid):
         kind = kinds[k % len(kinds)]
         tet2 = kind == 'tet' and rng.choice([False, True, 'some'])
-        m = c10_gen.gen_mesh(rng, kind=kind, tet2=tet2, max_elems=40 if ctx.tier == 'quick' else 60)
+        m = c10_gen.gen_mesh(rng, kind=kind, tet2=tet2, max_elems=40 if ctx.tier == 'quick' else 60,
+                             id_mode='radix' if k % 5 == 1 else None)
         c = {'nodes': m['nodes'], 'blocks': m['blocks'], 'meta': m['meta'], 'valid': True}
         # length scale (exact powers of two): volumes scale by s^3 (C10_volume_scale), the surface
         # does not change; the model runs on the unscaled integer mesh
